@@ -16,6 +16,7 @@ type Request struct {
 	Method     string
 	Path       string            // decoded URL path as the server's URL parser presents it
 	H          map[string]string // canonical header name -> value; absent = header not sent
+	Host       string            // Host header of the request ("" = unknown)
 	Body       []byte            // bytes the client meant to send
 	BodyBroken bool              // the body stream failed with an error before its end
 
@@ -694,6 +695,17 @@ func (j *Judge) copyMove(o *outcome, req *Request, p Norm, n *Node) {
 		if !ref.OK {
 			o.addRefuse(400)
 		} else {
+			if ref.HasAuth && req.Host != "" {
+				auth := ref.Authority
+				if i := strings.LastIndexByte(auth, '@'); i >= 0 {
+					auth = auth[i+1:]
+				}
+				if !strings.EqualFold(auth, req.Host) {
+					// a destination on another authority: a server may refuse to
+					// act as a gateway (RFC 4918 section 9.8.5) or ignore the authority
+					o.addAlt(502)
+				}
+			}
 			if ref.EmptyPath || ref.HasQuery || ref.HasFrag || strings.HasPrefix(dv, "//") {
 				// (a scheme-less network-path reference names another authority;
 				// whether its authority part is acceptable is the URL parser's call)
